@@ -68,7 +68,13 @@ Proof.
                                do (rest', ps') <- go rest;
                                Ok ((YStr ks, v') :: rest', (ps ++ [render_segs (path ++ [esc_tok ks])] ++ ps')%list)
                            | _ => Err end
-                         else do (rest', ps') <- go rest; Ok ((k, v) :: rest', ps')
+                         else
+                           match key_name k with
+                           | Some n =>
+                               do (v', ps) <- collect (path ++ [esc_tok n]) v;
+                               do (rest', ps') <- go rest;
+                               Ok ((k, v') :: rest', (ps ++ ps')%list)
+                           | None => do (rest', ps') <- go rest; Ok ((k, v) :: rest', ps') end
                      | YStr ks =>
                          do (v', ps) <- collect (path ++ [esc_tok ks]) v;
                          do (rest', ps') <- go rest;
@@ -223,7 +229,13 @@ Proof.
                        do (rest', ps') <- go rest;
                        Ok ((YStr ks, v') :: rest', (ps ++ [render_segs (path ++ [esc_tok ks])] ++ ps')%list)
                    | _ => Err end
-                 else do (rest', ps') <- go rest; Ok ((k, v) :: rest', ps')
+                 else
+                   match key_name k with
+                   | Some n =>
+                       do (v', ps) <- collect (path ++ [esc_tok n]) v;
+                       do (rest', ps') <- go rest;
+                       Ok ((k, v') :: rest', (ps ++ ps')%list)
+                   | None => do (rest', ps') <- go rest; Ok ((k, v) :: rest', ps') end
              | YStr ks =>
                  do (v', ps) <- collect (path ++ [esc_tok ks]) v;
                  do (rest', ps') <- go rest;
@@ -293,6 +305,9 @@ Proof.
       rewrite (IHr Hjr). reflexivity. }
     rewrite Hgo. reflexivity.
   - inversion Hw as [| | | | | ? Hs Hall]; subst. cbn [yplain to_json].
+    assert (Hst : singleton_tagged_key (map (fun kv : string * json => let '(k, v) := kv in (YStr k, yplain v)) kvs) = false).
+    { destruct kvs as [|[k v] [|[k2 v2] r]]; reflexivity. }
+    rewrite Hst.
     assert (Hgo : (fix go (l : list (yaml * yaml)) : res (list (string * json)) :=
                      match l with
                      | [] => Ok []
@@ -301,7 +316,7 @@ Proof.
                                       | Some n => do j <- to_json v; do r' <- go r; Ok ((n, j) :: r')
                                       | None => Err end
                      end) (map (fun kv : string * json => let '(k, v) := kv in (YStr k, yplain v)) kvs) = Ok kvs).
-    { clear Hs Hw. induction IH as [|[k v] r Hv _ IHr]; [reflexivity|]. inversion Hall as [|? ? H1 H2]; subst. cbn [snd fst] in *.
+    { clear Hs Hw Hst. induction IH as [|[k v] r Hv _ IHr]; [reflexivity|]. inversion Hall as [|? ? H1 H2]; subst. cbn [snd fst] in *.
       cbn [map]. rewrite Hv by tauto. cbn [bind]. rewrite (IHr H2). reflexivity. }
     rewrite Hgo. cbn [bind]. rewrite (fold_insert_sorted kvs []); [reflexivity|exact Hs].
 Qed.
